@@ -21,6 +21,7 @@ EXPLANATION = (
     "The numeric statement over all (length, window, overlap) triples is implied by these identities only together "
     "with integer arithmetic facts (stated in the evidence); it is not enumerated."
     ' (D4 as built) the amplitude vector is abstracted as interval events (ones, slice stores, template slices, flips) and its final arrangement is compared, for every window class (interior / first / last / single) and every (nswin, overlap, window length) in a small box, with: rising ramp on the first `overlap` samples iff the window has a predecessor, mirrored ramp on the last `overlap` samples iff it has a successor, one elsewhere.'
+    ' (D1 as built) the generator is solved into closed forms over the iteration number (local cursor, local counter, mirrored self.iw); the position of a generator must be carried by locals of its frame - bounds computed from an attribute that other generators reset are reported (cursor-local).'
 )
 ASSUMPTIONS = [
     "ns, nswin, overlap are integers with 0 <= overlap < nswin (the property's precondition)",
